@@ -312,11 +312,16 @@ PLANS['C08'] = Plan(
 
 PLANS['C06'] = Plan(
     'C06', ['src/correlation/optical_map.py::toRelativeGenomicPositions', 'src/correlation/sequence_generator.py::SequenceGenerator.positionsToSequence',
-            AE + '__getAlignedPairs'], 'exploration',
+            AE + '__getAlignedPairs', 'src/correlation/optical_map.py::OpticalMap.getSequence', 'src/correlation/optical_map.py::CorrelationResult.create',
+            'src/correlation/optical_map.py::CorrelationResult.createPeaks', 'src/correlation/optical_map.py::InitialAlignment.refine'], 'exploration',
     "Decided by a BOUNDED run-time contract on Program.run: that FFT cross-correlation plus scipy find_peaks seeds the true diagonal is floating-point "
     "numerics outside any contract within reach. Planted exact copies of interior reference windows (class stated in the property) must be reported exactly. "
     "Deductive contributions reported alongside and not counted towards the level: bins are counted from the window start and a bin index converts to the "
-    "bin centre (within resolution/2), and candidates within maxDistance of the seed diagonal are exactly enumerated with offset = query - (reference - seed).",
+    "bin centre (within resolution/2), and candidates within maxDistance of the seed diagonal are exactly enumerated with offset = query - (reference - seed); the "
+    "coordinate bookkeeping of the refinement step (InitialAlignment.refine, OpticalMap.getSequence, CorrelationResult.create / createPeaks): the reference is "
+    "vectorised from seed - margin to seed + query length + margin and the secondary peaks are converted back with the SAME origin and resolution, each peak at "
+    "the centre of a bin of that window; maps and strand are passed on. The FFT correlation and scipy find_peaks enter as library contracts that say nothing "
+    "about values.",
     bounded=_lazy('bcheck.c06', 'bounded'), replay=_lazy('bcheck.c06', 'replay'),
     technique='bounded run-time contract on the real program for planted exact copies (deductive lemmas on binning and pairing reported alongside)',
 )
